@@ -12,7 +12,8 @@ Require Import Model.Base Model.Pipeline Proofs.PipelineProofs Proofs.PanicSiteP
 Require Import Gen.PanicSites Gen.PanicMap.
 (* developments of other properties that C01 builds on, by qualified name only
    (std++ notations are not imported here) *)
-Require Model.Lift Spec.CfgSpec Proofs.LiftTotalFlat Model.Includes Proofs.IncludesNoPanic.
+Require Model.Lift Spec.CfgSpec Proofs.LiftTotalFlat Proofs.LiftEdges Model.Includes Proofs.IncludesNoPanic.
+Require Model.Ir Model.Ssa Proofs.SsaNoPanic.
 Import ListNotations.
 Local Open Scope Z_scope.
 
@@ -125,6 +126,41 @@ Theorem C01_includes_never_panic :
 Proof. exact @Proofs.IncludesNoPanic.parse_files_no_panic. Qed.
 Print Assumptions C01_includes_never_panic.
 
+(* the SSA construction (mirror Model.Ssa of C14: insert_phi_statements,
+   insert_ssa_variables_impl, visit_expression, Statement::insert_ssa_variables)
+   never reaches an assert!/expect site, for every hash order of the dominance
+   frontiers and children lists, on a graph
+     - whose variables are still unversioned (IR lifting builds names with
+       from_string / with_suffix only), and
+     - whose dominator-tree children lists satisfy three order facts: a child is a
+       block of the graph with a larger index than its parent (the parent strictly
+       dominates it: C15_idom_exact, and dominance implies <=: C12_dom_implies_le),
+       a children list has no duplicates, and a block is the child of at most one
+       block (C15_dom_tree_children_invert_idom: children invert the idom function).
+   The proof shows that the pre-order walk visits every block at most once
+   (children_tree_of_order), that phi insertion and the updates of successor phis
+   keep unvisited blocks unversioned, and that renaming an unversioned block never
+   asserts.  SFuel (fuelled work list / recursion of the mirror) and SErrUndefined
+   (the `used before defined` error report) are not excluded. *)
+Theorem C01_into_ssa_never_panics :
+  forall (frontier children : list (list N)) (c : Model.Ir.cfg),
+    Proofs.SsaNoPanic.unversioned c -> (0 < length (Model.Ir.c_blocks c))%nat ->
+    (forall j k, In k (Proofs.SsaNoPanic.kids children j) -> (j < k)%nat /\ (k < length (Model.Ir.c_blocks c))%nat) ->
+    (forall j, NoDup (Proofs.SsaNoPanic.kids children j)) ->
+    (forall j j' k, In k (Proofs.SsaNoPanic.kids children j) -> In k (Proofs.SsaNoPanic.kids children j') -> j = j') ->
+    Model.Ssa.into_ssa frontier children c <> Model.Ssa.SPanic.
+Proof. exact Proofs.SsaNoPanic.into_ssa_never_panics_tree. Qed.
+Print Assumptions C01_into_ssa_never_panics.
+
+(* `2 + edges - nodes` of definition_complexity.rs cannot underflow: a lifted graph
+   has at least (number of blocks - 1) entries in its successor lists, because every
+   block but the entry is reachable (C12_all_reachable) and so is the target of an edge *)
+Theorem C01_complexity_does_not_underflow : forall (body : Model.Lift.sk) (g : list Model.Lift.block),
+  Model.Lift.lift body = Ok g ->
+  (length g <= 2 + list_sum (map (fun b => length (Model.Lift.b_succs b)) g))%nat.
+Proof. exact Proofs.LiftEdges.complexity_does_not_underflow. Qed.
+Print Assumptions C01_complexity_does_not_underflow.
+
 (* the assembly: if no stage panics or runs out of fuel (an Err is allowed: it
    becomes a report and the run continues) and the output stage ends with exit
    status 0 or 1, the pipeline ends with exit status 0 or 1 for every command
@@ -149,9 +185,10 @@ Print Assumptions C01_includes_never_panic.
                 the two rewriting arms of the desugarer and is observed (C12/C13
                 correspondence on the real into_cfg)
      ssa        C15_no_panic, C15_dom_fuel_suffices (DominatorTree::new on a rooted
-                graph; C12_all_reachable: every lifted graph is rooted); the SSA
-                construction itself (Model.Ssa has SPanic/SFuel sites) has no
-                totality theorem: observed, its output validated by C14
+                graph; C12_all_reachable: every lifted graph is rooted);
+                C01_into_ssa_never_panics (no assert!/expect of the construction);
+                termination of the work list and of the tree walk (SFuel of the
+                mirror) is observed; the output is validated by C14
      propagate  C16_field_never_panics, C16_egcd_total, C16_shift_bounded_work (field
                 operations); C14_unique_defs + fix 79353f9 (add_variable's
                 assert_eq!); C20_propagate_validated_at_every_budget covers every
@@ -160,7 +197,8 @@ Print Assumptions C01_includes_never_panic.
      passes     C12_branch_only_last, C12_branch_targets_exist_and_are_succs,
                 C12_preds_succs_mirror, C15_*_exact (the cfg.rs accessors the taint
                 analysis uses), C09_taint_fuel_suffices, C11_*_reports_exact,
-                C04_label_start_le_end (label ranges); the other passes are observed
+                C01_complexity_does_not_underflow, C04_label_start_le_end (label
+                ranges); the other passes are observed
      output     C03_exit_zero_iff_nothing_displayed, C03_summary_counts_displayed,
                 C04_label_construction_panics_only_on_unwrap *)
 Theorem C01_pipeline_total :
